@@ -35,7 +35,7 @@ RULE = (
     "sequence shape classes: re-evaluated?, narrower-before?, scene queries, permuted?)"
 )
 ASSUMPTIONS = ["confidences are pairwise distinct", "scene pooling groups a result under its estimate's label, or its ground truth's label when the estimate's label is not a target (the library's rule)"]
-DECIDING = ["add_frame_result.snapshots_checked", "get_scene_result.judged", "C13.probe_comparisons", "C13.reevaluated_after_narrower", "C13.one_frame_scenes", "C13.permutations_compared", "C13.interpolated_lookups", "C13.audit_events_seen"]
+DECIDING = ["add_frame_result.snapshots_checked", "get_scene_result.judged", "C13.probe_comparisons", "C13.reevaluated_after_narrower", "C13.one_frame_scenes", "C13.permutations_compared", "C13.interpolated_lookups", "C13.adjacent_confidence_poolings", "C13.audit_events_seen"]
 JOBS = {"quick": 4, "thorough": 14}
 
 AUDIT: Dict[str, Any] = {"root": None, "writes": [], "events": 0, "installed": False}
@@ -288,4 +288,47 @@ def run(ctx: Ctx) -> None:
                         ctx.violation("C13/dataset_file_opened_for_writing", dict(files=AUDIT["writes"][:3]), tap="audit")
                     AUDIT["root"] = None
                 ctx.case((task, frame_id, reeval, narrower_before, min(n_scene, 2), order != sorted(order)), nontrivial=reeval or nF >= 2, sample=dict(scn.info, frame_id=frame_id, probe=(probe_k, probe_how)) if idx < 3 else None)
+        # ---- pooled AP with distinct but adjacent confidences: the strict order decides, not the order of the frames
+        from perception_eval.common.label import AutowareLabel
+        from perception_eval.evaluation.matching import MatchingMode
+        from perception_eval.evaluation.metrics.detection.map import Map
+        from perception_eval.evaluation.result.object_result import DynamicObjectWithPerceptionResult
+
+        from .. import apmodel
+
+        for idx in ctx.indices("adjacent_confidences", 60 if ctx.quick else 6000):
+            r = ctx.rng("adjacent_confidences", idx)
+            n_frames = r.randint(2, 4)
+            base = round(r.uniform(0.1, 0.9), 3)
+            confs = [base]
+            for _ in range(2 * n_frames):
+                confs.append(float(np.nextafter(confs[-1], 2.0)) if r.random() < 0.7 else round(r.uniform(0.05, 0.95), 4))
+            confs = list(dict.fromkeys(confs))
+            r.shuffle(confs)
+            frames_res, n_gt = [], 0
+            for f in range(n_frames):
+                fr = []
+                for j in range(r.randint(1, 2)):
+                    if not confs:
+                        break
+                    c = confs.pop()
+                    tp = r.random() < 0.5
+                    g = O.obj3d(5.0 + 7 * j, 3.0 * f, 0.0, 0.3, lab="car", uuid=f"g{f}{j}")
+                    e = O.obj3d(5.0 + 7 * j + (0.2 if tp else 3.0), 3.0 * f, 0.0, 0.3, lab="car", score=c, uuid=f"e{f}{j}")
+                    fr.append(DynamicObjectWithPerceptionResult(e, g))
+                    n_gt += 1
+                frames_res.append(fr)
+            ctx.begin_case("adjacent_confidences", idx, n_frames=n_frames)
+            with ctx.case_guard("adjacent_confidences"):
+                maps = []
+                for order in (list(range(n_frames)), list(reversed(range(n_frames))), r.sample(range(n_frames), n_frames)):
+                    nested = [list(frames_res[k]) for k in order]
+                    m = Map(object_results_dict={AutowareLabel.CAR: nested}, num_ground_truth_dict={AutowareLabel.CAR: n_gt}, target_labels=[AutowareLabel.CAR], matching_mode=MatchingMode.CENTERDISTANCE, matching_threshold_list=[1.0])
+                    maps.append((m.map, m.maph))
+                flat = sorted([x for fr in frames_res for x in fr], key=lambda x: -x.estimated_object.semantic_score)
+                ref, _ = apmodel.reference_ap([1.0 if abs(x.estimated_object.state.position[0] - x.ground_truth_object.state.position[0]) < 1.0 else 0.0 for x in flat], n_gt)
+                ctx.count("C13.adjacent_confidence_poolings")
+                ok = all(abs(a[0] - maps[0][0]) <= 1e-12 and abs(a[1] - maps[0][1]) <= 1e-12 for a in maps) and abs(maps[0][0] - ref) <= 1e-9
+                ctx.check(ok, "C13/pooled_ap_depends_on_frame_order", dict(n_frames=n_frames, by_order=maps, reference=ref, confidences=[x.estimated_object.semantic_score for x in flat]), "comparator")
+                ctx.case(("adjacent_confidences", n_frames), nontrivial=True)
         ctx.notes["taps"] = taps.installed
